@@ -1,13 +1,17 @@
 // C16 — realization results depend only on the current state values.
-// flow = harness_first.  Every case builds a random multibody system with several force elements, applies a
-// random history (variable modifications, parameter setters, enable/disable, Force::Gravity setters,
-// realizations to random stages, queries) and, at `check` records, compares (bitwise: value = relative
-// difference, bound 1e-12) udot, body forces, mobility forces, PE and KE with a freshly created State given
-// the same values: that is the property's own predicate (P lines).  The I lines describe the history in the
-// vocabulary of the Lean model (SimbodyModel/C16.lean, force classes named as in Gen/ForceParams.lean); the
-// O lines are what the implementation lets us observe of its caches (stage, Force::Gravity::isForceCacheValid
-// and getNumEvaluations, calcForce call counts of Custom probe forces, staleness at checks) and are predicted by
-// the model.  Case 0 is the dedicated history of finding F4 (key MobilityLinearSpring.param_after_realize.history).
+// flow = harness_first.  Every case builds a multibody system with several force elements, applies a history
+// (variable modifications, parameter setters, enable/disable, Force::Gravity setters, realizations to random
+// stages, queries, explicit requests / invalidations of the matter subsystem's lazy cache entries; in "rich" cases
+// also mobilizer locks, constraint enable/disable, the Euler-angle/quaternion option) and, at `check` records,
+// compares (value = relative difference, bound 1e-12, i.e. bitwise) udot, body forces, mobility forces, PE, KE, zdot
+// -- rich cases: also multipliers, constraint errors, event witness values, body kinematics, composite- and
+// articulated-body inertias -- with a freshly created State given the same values: the property's own predicate
+// (P lines).  The I lines describe the history in the vocabulary of the Lean model (SimbodyModel/C16.lean, force
+// classes named as in Gen/ForceParams.lean); the O lines are what the implementation lets us observe of its
+// caches (stage, Force::Gravity::isForceCacheValid and getNumEvaluations, calcForce call counts of Custom probe
+// forces, the five is...Realized flags of the matter subsystem, staleness at checks) and are predicted by the model.
+// Case 0 is the dedicated history of finding F4 (key MobilityLinearSpring.param_after_realize.history); then the
+// directed 3-step histories (one per force type and setter); then the random cases.
 #include "Simbody.h"
 #include "hcommon.h"
 #include <iostream>
